@@ -132,7 +132,12 @@ func loadTests() ([]test, error) {
 			if strings.HasSuffix(en.Name(), ".go") {
 				src, e := os.ReadFile(filepath.Join(extra, en.Name()))
 				if e == nil {
-					ts = append(ts, test{path: "extra/" + en.Name(), mode: "run", src: src, extra: true})
+					// `// rundir`: a program of several packages in <name>.dir, compared with <name>.golden (the output of gc)
+					mode := "run"
+					if strings.HasPrefix(string(src), "// rundir") {
+						mode = "rundir"
+					}
+					ts = append(ts, test{path: "extra/" + en.Name(), mode: mode, src: src, extra: true})
 				}
 			}
 		}
